@@ -23,4 +23,5 @@ MUTANTS = [
     M('C13', 'recursion limit only ever raised', PRE, "        sys.setrecursionlimit(max_recursion_depth + GAP_BETWEEN_PYTHONS_AND_PREPROCESSOR_MACRO_RECURSION_DEPTH)",
       "        sys.setrecursionlimit(max(sys.getrecursionlimit(), max_recursion_depth + GAP_BETWEEN_PYTHONS_AND_PREPROCESSOR_MACRO_RECURSION_DEPTH))", 'C13.RECLIMIT'),
     M('C13', 'label ids from object identity', PRE, "        self.labels[f'{wflip_start_label}{self.curr_segment_index}'] = self.curr_address", "        self.labels[f'{wflip_start_label}{id(self)}'] = self.curr_address", 'C13.NONDET'),
+    M('C13', 'EQ snapshot copies the constants with .copy()', 'flipjump/assembler/fj_parser.py', "        dict(parser.consts),\n        dict(parser.macros),", "        parser.consts.copy(),\n        dict(parser.macros),", None),
 ]
